@@ -15,6 +15,9 @@ of B that is not yet stored (the stored rows of other ids untouched), adds exact
 stored, empties the batch and keeps the store well-formed - for every batch, with no bound on its length.
 """
 MODULE = "tel2puml/otel_to_pv/data_holders/sql_data_holder/sql_dataholder.py"
+FILES = {"": MODULE, "DataHolder.__exit__": "tel2puml/otel_to_pv/data_holders/base.py", "SQLDataHolder.save_data": "tel2puml/otel_to_pv/data_holders/base.py",
+         "IngestData.load_to_data_holder": "tel2puml/otel_to_pv/ingest_otel_data.py"}
+BASES = {"SQLDataHolder": "DataHolder"}
 
 KW_CTOR = ["NodeModel"]
 RECORDS = {
@@ -26,9 +29,12 @@ RECORDS = {
     "Session": {"fields": {}},
     "SQLDataHolder": {
         "fields": {"node_models_to_save": "list[NodeModel]", "node_relationships_to_save": "list[dict[str, str]]", "batch_size": "int",
-                   "session": "Session", "g_nodes": "dict[str, NodeModel]", "g_assoc": "set[tuple[str, str]]"},
-        "mutable": ["node_models_to_save", "node_relationships_to_save", "g_nodes", "g_assoc"],
+                   "session": "Session", "g_nodes": "dict[str, NodeModel]", "g_assoc": "set[tuple[str, str]]",
+                   "_min_timestamp": "int", "_max_timestamp": "int"},
+        "mutable": ["node_models_to_save", "node_relationships_to_save", "g_nodes", "g_assoc", "_min_timestamp", "_max_timestamp"],
     },
+    # the data source is modelled by the list of spans it yields
+    "IngestData": {"fields": {"data_holder": "SQLDataHolder", "data_source": "list[OTelEvent]"}},
 }
 
 SPECS = '''
@@ -38,8 +44,19 @@ def rels(xs: list[NodeModel]) -> list[dict[str, str]]:
 def distinct_ids(xs: list[NodeModel]) -> bool:
     return all(xs[a].event_id != xs[b].event_id for a in range(len(xs)) for b in range(a + 1, len(xs)))
 
+def first_new(evs: list[OTelEvent], q: int, N0: dict[str, NodeModel]) -> bool:
+    return evs[q].event_id not in N0 and all(evs[r].event_id != evs[q].event_id for r in range(q))
+
+def link_of(e: OTelEvent, a: str, c: str) -> bool:
+    return c == e.event_id and e.parent_event_id is not None and e.parent_event_id != '' and a == e.parent_event_id
+
 def is_first(xs: list[NodeModel], p: int) -> bool:
     return all(xs[q].event_id != xs[p].event_id for q in range(p))
+
+def row_of(n: NodeModel, e: OTelEvent) -> bool:
+    return (n.job_name == e.job_name and n.job_id == e.job_id and n.event_type == e.event_type and n.event_id == e.event_id
+            and n.start_timestamp == e.start_timestamp and n.end_timestamp == e.end_timestamp and n.application_name == e.application_name
+            and n.parent_event_id == (e.parent_event_id if e.parent_event_id is not None and e.parent_event_id != '' else None))
 '''
 
 
@@ -70,6 +87,27 @@ def STORED(h, batch, old_nodes, old_assoc):
         "batch_emptied": f"len({h}.node_models_to_save) == 0 and len({h}.node_relationships_to_save) == 0",
         "wf": WF(h),
     }
+
+
+# ---- the *virtual store*: what the store will hold once the pending batch is flushed (stored rows, then the first occurrence of
+# every pending id that is not stored).  Ingestion is specified on it: saving a span extends it by that span iff its id is new.
+def VKEY(h, k, old=False):
+    w = (lambda t: f"old({t})") if old else (lambda t: t)
+    return f"({k} in {w(h + '.g_nodes')} or any({w(h + '.node_models_to_save')}[vp].event_id == {k} for vp in range(len({w(h + '.node_models_to_save')}))))"
+
+
+def VROW(h, k, n, old=False):
+    w = (lambda t: f"old({t})") if old else (lambda t: t)
+    N, P = w(h + ".g_nodes"), w(h + ".node_models_to_save")
+    return (f"(({k} in {N} and {n} is {N}[{k}]) or ({k} not in {N} and any(is_first({P}, vq) and {P}[vq].event_id == {k} and {n} is {P}[vq] "
+            f"for vq in range(len({P})))))")
+
+
+def VASSOC(h, a, c, old=False):
+    w = (lambda t: f"old({t})") if old else (lambda t: t)
+    N, P, A = w(h + ".g_nodes"), w(h + ".node_models_to_save"), w(h + ".g_assoc")
+    return (f"(({a}, {c}) in {A} or any(is_first({P}, vr) and {P}[vr].event_id not in {N} and {P}[vr].event_id == {c} "
+            f"and {P}[vr].parent_event_id is not None and {P}[vr].parent_event_id == {a} for vr in range(len({P}))))")
 
 
 ALLM = ["SQLDataHolder.node_models_to_save", "SQLDataHolder.node_relationships_to_save", "SQLDataHolder.g_nodes", "SQLDataHolder.g_assoc"]
@@ -196,16 +234,82 @@ CONTRACTS = {
                 " and otel_event.event_id in self.g_nodes)",
             "pending": BI("self"),
             "wf": WF("self"),
+            # on the virtual store: the span's id is added; every row it held stays; a new id is represented by a row with the span's content
+            "v_keys": f"forall(lambda k: {VKEY('self', 'k')} == ({VKEY('self', 'k', True)} or k == otel_event.event_id), 'str')",
+            "v_stored_kept": "forall(lambda k: implies(k in old(self.g_nodes), k in self.g_nodes and self.g_nodes[k] is old(self.g_nodes)[k]), 'str')",
+            "v_pending_kept": "all(implies(is_first(old(self.node_models_to_save), p) and old(self.node_models_to_save)[p].event_id not in old(self.g_nodes), "
+                              + VROW('self', 'old(self.node_models_to_save)[p].event_id', 'old(self.node_models_to_save)[p]')
+                              + ") for p in range(len(old(self.node_models_to_save))))",
+            "v_new_row": f"implies(not {VKEY('self', 'otel_event.event_id', True)}, "
+                         f"exists(lambda n: {VROW('self', 'otel_event.event_id', 'n')} and row_of(n, otel_event), 'NodeModel'))",
+            "v_assoc": f"forall(lambda a, c: {VASSOC('self', 'a', 'c')} == ({VASSOC('self', 'a', 'c', True)} or (not {VKEY('self', 'otel_event.event_id', True)} "
+                       "and c == otel_event.event_id and otel_event.parent_event_id is not None and otel_event.parent_event_id != '' "
+                       "and a == otel_event.parent_event_id)), 'str', 'str')",
         },
-        "hints": ["(old(self.node_models_to_save) + [node_model])[len(old(self.node_models_to_save))].event_id == otel_event.event_id"],
+        "prelude": ["idx_app_rev"],
+        "hints": ["(old(self.node_models_to_save) + [node_model])[len(old(self.node_models_to_save))].event_id == otel_event.event_id",
+                  "row_of(node_model, otel_event)",
+                  f"implies(len(self.node_models_to_save) > 0 and not {VKEY('self', 'otel_event.event_id', True)}, "
+                  "self.node_models_to_save[len(self.node_models_to_save) - 1] is node_model and "
+                  "is_first(self.node_models_to_save, len(self.node_models_to_save) - 1))"],
     },
 }
+
+TS = ["SQLDataHolder._min_timestamp", "SQLDataHolder._max_timestamp"]
+N0, A0 = "old(self.data_holder.g_nodes)", "old(self.data_holder.g_assoc)"
+H = "self.data_holder"
+EVS = "self.data_source"
+CONTRACTS.update({
+    "Session.close": {"trusted": True, "external": True, "params": {"self": "Session"}, "ensures": {}},
+    # base class: `if exc_type: raise`
+    "DataHolder.__exit__": {"trusted": True, "params": {"self": "SQLDataHolder", "exc_type": "Optional[str]", "exc_val": "Optional[str]", "exc_tb": "Optional[str]"},
+                            "requires": {"no_exception": "exc_type is None"}, "ensures": {}},
+    "SQLDataHolder.__exit__": {
+        "params": {"exc_type": "Optional[str]", "exc_val": "Optional[str]", "exc_tb": "Optional[str]"},
+        "modifies": ALLM,
+        "requires": {"no_exception": "exc_type is None", "wf": WF("self"), "pending": BI("self")},
+        # leaving the `with` block flushes what is still pending
+        "ensures": STORED("self", B0, "old(self.g_nodes)", "old(self.g_assoc)"),
+    },
+    "SQLDataHolder.save_data": {
+        "source_name": "DataHolder.save_data", "params": {"self": "SQLDataHolder"},
+        "modifies": ALLM + TS,
+        "requires": {"wf": WF("self"), "pending": BI("self")},
+        "ensures": {k: v for k, v in CONTRACTS["SQLDataHolder._save_data"]["ensures"].items() if k != "buffered_or_flushed"},
+    },
+    # ------------------------------------------------------------------ the whole ingestion (C10's statement, on the ghost store)
+    "IngestData.load_to_data_holder": {
+        "modifies": ALLM + TS,
+        "requires": {"wf": WF(H), "nothing_pending": f"len({H}.node_models_to_save) == 0 and len({H}.node_relationships_to_save) == 0"},
+        "ensures": {
+            # "the store holds exactly one record per distinct span id ..."
+            "keys": f"forall(lambda k: (k in {H}.g_nodes) == (k in {N0} or any({EVS}[q].event_id == k for q in range(len({EVS})))), 'str')",
+            # "... the first occurrence seen ..." (rows that were stored before are not touched: a re-sent span is ignored)
+            "first_occurrence": f"all(implies(first_new({EVS}, q, {N0}), row_of({H}.g_nodes[{EVS}[q].event_id], {EVS}[q])) for q in range(len({EVS})))",
+            "old_rows_untouched": f"forall(lambda k: implies(k in {N0}, {H}.g_nodes[k] is {N0}[k]), 'str')",
+            # "... together with its parent link", and no other link
+            "links": f"forall(lambda a, c: ((a, c) in {H}.g_assoc) == ((a, c) in {A0} or any(first_new({EVS}, q, {N0}) and link_of({EVS}[q], a, c) "
+                     f"for q in range(len({EVS})))), 'str', 'str')",
+            "nothing_pending": f"len({H}.node_models_to_save) == 0 and len({H}.node_relationships_to_save) == 0",
+            "wf": WF(H),
+        },
+        "loops": {0: {"index": "i", "seq": "evs", "invariant": {
+            "src": f"evs == {EVS}",
+            "wf": WF(H), "pending": BI(H),
+            "v_keys": f"forall(lambda k: {VKEY(H, 'k')} == (k in {N0} or any(evs[q].event_id == k for q in range(i))), 'str')",
+            "v_first": f"all(implies(first_new(evs, q, {N0}), exists(lambda n: {VROW(H, 'evs[q].event_id', 'n')} and row_of(n, evs[q]), 'NodeModel')) for q in range(i))",
+            "v_old": f"forall(lambda k: implies(k in {N0}, k in {H}.g_nodes and {H}.g_nodes[k] is {N0}[k]), 'str')",
+            "v_assoc": f"forall(lambda a, c: {VASSOC(H, 'a', 'c')} == ((a, c) in {A0} or any(first_new(evs, q, {N0}) and link_of(evs[q], a, c) for q in range(i))), 'str', 'str')",
+        }}},
+    },
+})
 
 ORDER = ["Session.rollback", "SQLDataHolder.batch_insert_node_models", "SQLDataHolder.batch_insert_node_associations",
          "SQLDataHolder.get_event_ids_existing_in_db", "SQLDataHolder._update_node_relations_from_node",
          "SQLDataHolder.commit_batched_data_to_database", "SQLDataHolder.check_and_filter_non_unique_nodes_and_associations",
          "SQLDataHolder.commit_batched_unique_data_to_database", "SQLDataHolder.convert_otel_event_to_node_model",
-         "SQLDataHolder.add_node_relations", "SQLDataHolder._save_data"]
+         "SQLDataHolder.add_node_relations", "SQLDataHolder._save_data",
+         "Session.close", "DataHolder.__exit__", "SQLDataHolder.__exit__", "SQLDataHolder.save_data", "IngestData.load_to_data_holder"]
 
 
 def setup(V):
